@@ -249,6 +249,11 @@ def _run(ctx, mf, nat, tier, seed):
     ctx.prove("c11_shard_info_rejects_iff_shard_out_of_range", pre4, is_err == (shard >= n), inputs=[shard, n, msb8], functions=F4,
               bounds=B4, backend="INT", assumes=LIB_MODELS)
     try:
+        supported_options(ctx, mf)
+    except mir.Unsupported as e:
+        ctx.add(name="smt:c11_translate_supported_options", engine="smt:mir2smt", status="inconclusive",
+                reason="translator rejected the current source: " + str(e), functions=FILE)
+    try:
         glue(ctx, mf)
     except mir.Unsupported as e:
         ctx.add(name="smt:c11_translate_glue", engine="smt:mir2smt", status="inconclusive",
@@ -478,3 +483,111 @@ def replay_glue(m, which):
     got = nat.ask(f"{which} {m.get('n', 1)} {m.get('shard', 0)} {m.get('lo', 1024)} {m.get('hi', 1024)} 20000")
     nat.close()
     return native.record("C11", which, {"inputs": m, "native": got, "note": "20000 runs of the real function with the real RNG on the model's (n, shard, range)"}, got != "OK")
+
+
+# ====================================================================== ShardInfo from the SUPPORTED options
+def supported_options(ctx, mf):
+    """`ShardInfo::try_from(&HashMap<String, Vec<String>>)`: every presence pattern of the three SCYLLA_* options (missing / empty list / a value), the value texts abstract:
+    each either parses to an arbitrary number of its type or does not parse"""
+    import itertools
+    from mir2smt import stdmodels as sm2
+    from mir2smt.mir import Tup, Enum, Ref, Cell, Seq, Opaque, Int, Bool
+    OPT, RES = mir.ENUM_VARIANTS["Option"], mir.ENUM_VARIANTS["Result"]
+    fn = mf.find(r"sharding\.rs[^>]*>::try_from\(_1: &std::collections::HashMap<String, Vec<String>>\)")
+    be = mir.BVBackend()
+    KEYS = {"SCYLLA_SHARD": "shard", "SCYLLA_NR_SHARDS": "nr", "SCYLLA_SHARDING_IGNORE_MSB": "msb"}
+    goals, inputs, n = [], [], 0
+    for pattern in itertools.product(("missing", "empty", "value"), repeat=3):
+        tag = "".join(x[0] for x in pattern)
+        vals = {"shard": z3.BitVec("opt_shard_" + tag, 16), "nr": z3.BitVec("opt_nr_" + tag, 16), "msb": z3.BitVec("opt_msb_" + tag, 8)}
+        oks = {k: z3.Bool(f"parses_{k}_{tag}") for k in vals}
+        inputs += list(vals.values()) + list(oks.values())
+        entries = {}
+        for (key, short), pat in zip(KEYS.items(), pattern):
+            if pat == "missing": continue
+            entries[key] = Seq([] if pat == "empty" else [Opaque("optval:" + short), Opaque("optval:second-entry-ignored")])
+        def m_get(it, p, callee, args):
+            k = args[1]
+            for _ in range(3):
+                if isinstance(k, Ref): k = sm2.deref(k)
+            name = k.name[5:-1] if isinstance(k, Opaque) and k.name.startswith('str:"') else None
+            if name is None:
+                raise mir.Unsupported("HashMap::get with a non-literal key")
+            if name in entries:
+                return Enum(it.const_int(1, "isize"), {1: Tup([Ref(Cell(entries[name]))])}, OPT, "Option")
+            return Enum(it.const_int(0, "isize"), {}, OPT, "Option")
+        def m_first(it, p, callee, args):
+            s = sm2.deref(args[0])
+            if not s.items:
+                return Enum(it.const_int(0, "isize"), {}, OPT, "Option")
+            return Enum(it.const_int(1, "isize"), {1: Tup([Ref(Cell(s.items[0]))])}, OPT, "Option")
+        def m_parse(it, p, callee, args):
+            v = args[0]
+            for _ in range(3):
+                if isinstance(v, Ref): v = sm2.deref(v)
+            short = v.name.split(":")[1]
+            w = 8 if callee.endswith("<u8>") else 16
+            d = z3.If(oks[short], z3.BitVecVal(0, 64), z3.BitVecVal(1, 64))
+            return Enum(Int(d, 64, True), {0: Tup([Int(vals[short], w, False)]), 1: Tup([Opaque("ParseIntError")])}, RES, "Result")
+        def m_nonzero(it, p, callee, args):
+            x = args[0]
+            return Enum(Int(z3.If(x.t == 0, z3.BitVecVal(0, 64), z3.BitVecVal(1, 64)), 64, True), {1: Tup([x])}, OPT, "Option")
+        def m_ok_or(it, p, callee, args):
+            o, e = args
+            return Enum(Int(z3.If(o.discr.t == 1, z3.BitVecVal(0, 64), z3.BitVecVal(1, 64)), 64, True), {0: o.payloads.get(1, Tup([Opaque("x")])), 1: Tup([e])}, RES, "Result")
+        mods = {r"^std::collections::HashMap::<String, Vec<String>>::get::<str>$": m_get, r"^<Vec<String> as Deref>::deref$": lambda it, p, c, a: a[0],
+                r"core::slice::<impl \[String\]>::first$": m_first, r"^<String as Deref>::deref$": lambda it, p, c, a: a[0],
+                r"^core::str::<impl str>::parse::<u(8|16)>$": m_parse, r"^NonZero::<u16>::new$": m_nonzero, r"^Option::<NonZero<u16>>::ok_or::<ShardingError>$": m_ok_or,
+                r"^<(std::result::)?Result<.*> as Try>::branch$": sm2.m_result_branch,
+                r" as FromResidual<(std::result::)?Result<(std::convert::)?Infallible, .*>>>::from_residual$": sm2.m_result_from_residual,
+                r"^<NonZero<u16> as Into<u16>>::into$|NonZero::<u16>::get$": lambda it, p, c, a: a[0]}
+        reg = __import__("mir2smt.rustenum", fromlist=["Registry"]).Registry(["/repo/scylla/src/routing/sharding.rs"])
+        it = mir.Interp(mf, be, mods, inline=[r"^ShardInfo::new$"], registry=reg, max_steps=6000)
+        paths = it.run(fn, [Ref(Cell(Opaque("options")))], [])
+        n += 1
+        present = [x != "missing" for x in pattern]
+        cover = []
+        for p in paths:
+            pc = z3.And(p.pc) if p.pc else z3.BoolVal(True)
+            if p.outcome[0] != "return":
+                goals.append(z3.Not(pc)); continue
+            cover.append(pc)
+            r = p.outcome[1]
+            if not all(present) or "empty" in pattern:
+                goals.append(z3.Implies(pc, r.discr.t == 1)); continue
+            good = z3.And(oks["shard"], oks["nr"], oks["msb"], vals["nr"] != 0, z3.ULT(vals["shard"], vals["nr"]))
+            conj = [(r.discr.t == 0) == good]
+            if 0 in r.payloads:
+                si = r.payloads[0].f[0]          # ShardInfo { shard, nr_shards, msb_ignore }
+                conj.append(z3.Implies(r.discr.t == 0, z3.And(si.f[0].t == vals["shard"], si.f[1].t == vals["nr"], si.f[2].t == vals["msb"])))
+            goals.append(z3.Implies(pc, z3.And(conj)))
+        goals.append(z3.Or(cover) if cover else z3.BoolVal(False))
+    ctx.prove("c11_shard_info_from_supported_options", [], z3.And(goals), inputs=inputs, functions="<ShardInfo as TryFrom<&HashMap<String, Vec<String>>>>::try_from, ShardInfo::new [" + FILE + "]",
+              bounds=f"{n} presence patterns of SCYLLA_SHARD / SCYLLA_NR_SHARDS / SCYLLA_SHARDING_IGNORE_MSB (missing, empty list, a list whose first entry counts) x each value text either parsing to "
+                     "an arbitrary u16 / u16 / u8 or not parsing: a ShardInfo is produced iff all three are present, non-empty, parse, nr_shards != 0 and shard < nr_shards, and it carries exactly "
+                     "those three numbers; everything else is an error",
+              backend="BV", assumes="library models (trusted): HashMap<String, Vec<String>>::get by literal key, slice::first, str::parse::<u16|u8> = Ok(arbitrary value) or Err (decided by a symbolic flag), "
+              "NonZero::new, Option::ok_or, Try plumbing", witness=False, outside="the decimal parsing itself (std), which ShardingError variant is reported", replay=lambda m: replay_supported(m))
+
+
+def replay_supported(m):
+    import itertools
+    nat = native.Native("drv")
+    bad = []
+    for pattern in itertools.product(("missing", "empty", "value"), repeat=3):
+        tag = "".join(x[0] for x in pattern)
+        args, nums, allok = [], {}, True
+        for short, pat, w in zip(("shard", "nr", "msb"), pattern, (16, 16, 8)):
+            v = (m.get(f"opt_{short}_{tag}") or 0) & ((1 << w) - 1); ok = bool(m.get(f"parses_{short}_{tag}"))
+            nums[short] = v
+            if pat == "missing": args.append("-"); allok = False
+            elif pat == "empty": args.append("e"); allok = False
+            elif ok: args.append(str(v))
+            else: args.append("x"); allok = False
+        got = nat.ask("shardopts " + " ".join(args))
+        good = allok and nums["nr"] != 0 and nums["shard"] < nums["nr"]
+        want = f"OK {nums['shard']} {nums['nr']} {nums['msb']}" if good else "ERR"
+        if (got != want) if good else (not got.startswith("ERR")):
+            bad.append({"options": args, "native": got, "expected": want})
+    nat.close()
+    return native.record("C11", "shard_info_from_supported_options", {"mismatches": bad[:6]}, bool(bad))
